@@ -5,6 +5,7 @@ package props
 import (
 	"encoding/json"
 	"fmt"
+	"net/http"
 	"sort"
 	"strings"
 
@@ -29,13 +30,30 @@ type instProg struct {
 func (p instProg) String() string { return p.Kind + "{" + strings.Join(p.Ops, ";") + "}" }
 
 // runProg executes the program; yield is called between operations.
+// Option values are plain data a program may build once and hand to many constructors; instances built from
+// the same Option values must still be independent.
+var sharedOptions = []mux.Option{
+	mux.WithCORS([]string{"https://a", "https://b"}, []string{"Content-Type", "X-Tok"}, []string{"X-E"}, 600, true),
+	mux.WithTrace(hv.TraceH()),
+	mux.WithDigitInterceptor("digit"),
+	mux.WithURLDomain("https://h/"),
+}
+
 func runProg(p instProg, yield func()) []string {
 	var res []string
 	add := func(s string) { res = append(res, s); yield() }
 	switch p.Kind {
-	case "router", "lock", "trace":
+	case "router", "lock", "trace", "shared", "icpt":
 		cfg := RouterCfg{Name: "r-" + p.Kind, Lock: p.Kind == "lock", Trace: p.Kind == "trace"}
-		r := NewRouter(cfg)
+		var r *Router
+		switch p.Kind {
+		case "shared":
+			r = NewRouter(cfg, sharedOptions...)
+		case "icpt":
+			r = NewRouter(cfg, mux.WithDigitInterceptor("rule"))
+		default:
+			r = NewRouter(cfg)
+		}
 		log := &hv.Log{}
 		add("new")
 		for _, op := range p.Ops {
@@ -53,6 +71,14 @@ func runProg(p instProg, yield func()) []string {
 					r.Clean()
 				case "use":
 					r.Use(hv.MW{Name: "A", Log: log})
+				case "handleRule":
+					r.Handle("/i/{x:rule}", hv.Route("hI"), nil, "GET") // interceptor in kind icpt, the regexp "rule" elsewhere
+				case "getRule":
+					add(hv.Serve(r, hv.Req{Method: "GET", Path: "/i/12"}).Summary())
+					add(hv.Serve(r, hv.Req{Method: "GET", Path: "/i/rule"}).Summary())
+				case "corsA":
+					o := hv.Serve(r, hv.Req{Method: "OPTIONS", Path: "/a", Header: map[string]string{"Origin": "https://a", "Access-Control-Request-Method": "GET", "Access-Control-Request-Headers": "content-type"}})
+					add(fmt.Sprintf("%d acao=%q vary=%q", o.Status, o.Header.Get("Access-Control-Allow-Origin"), o.Header.Values("Vary")))
 				case "getA":
 					add(hv.Serve(r, hv.Req{Method: "GET", Path: "/a"}).Summary())
 				case "getAX":
@@ -85,6 +111,17 @@ func runProg(p instProg, yield func()) []string {
 					h.Add("a.com")
 				case "addS":
 					h.Add("{s}.b.com")
+				case "icpt":
+					h.RegisterInterceptor(func(s string) bool { return len(s) == 2 }, "rule")
+				case "addRule":
+					h.Add("{s:rule}.c.com") // interceptor after "icpt" on THIS instance, else the regexp "rule"
+				case "matchRule":
+					for _, host := range []string{"xy.c.com", "rule.c.com"} {
+						ctx := types.NewContext()
+						ok := h.Match(hv.NewRequest(hv.Req{Method: "GET", Path: "/", Host: host}, &hv.Obs{}), ctx)
+						ctx.Destroy()
+						add(fmt.Sprintf("%s match=%v", host, ok))
+					}
 				case "delA":
 					h.Delete("a.com")
 				case "matchA", "matchS":
@@ -147,8 +184,14 @@ func c07Programs() []instProg {
 			ps = append(ps, instProg{k, ops})
 		}
 	}
-	for _, ops := range [][]string{{}, {"addA", "matchA"}, {"addS", "matchS"}, {"addA", "delA"}, {"addA", "addS", "matchS"}} {
+	for _, ops := range [][]string{{}, {"addA", "matchA"}, {"addS", "matchS"}, {"addA", "delA"}, {"addA", "addS", "matchS"}, {"icpt", "addRule", "matchRule"}, {"addRule", "matchRule"}} {
 		ps = append(ps, instProg{"hosts", ops})
+	}
+	for _, ops := range [][]string{{}, {"handleA", "corsA"}, {"handleA", "getA"}, {"handleRule", "getRule"}, {"optStar"}} {
+		ps = append(ps, instProg{"shared", ops})
+	}
+	for _, ops := range [][]string{{"handleRule", "getRule"}} {
+		ps = append(ps, instProg{"icpt", ops}, instProg{"router", ops})
 	}
 	for _, ops := range [][]string{{}, {"new1", "handle1", "serve"}, {"use", "serve404"}, {"new1", "use", "serve404"}} {
 		ps = append(ps, instProg{"group", ops})
@@ -277,6 +320,20 @@ type c07cItem struct {
 	Only    []int      `json:"only,omitempty"`
 }
 
+// quiescentServer builds the immutable server of scenario family (c).
+func quiescentServer(lock bool, shape int) http.Handler {
+	if shape == 2 {
+		// a Group whose routers sit behind composite matchers: the matchers are shared by all requests
+		g := newGroup()
+		r1 := g.New("g1", mux.AndMatcher(mux.NewHosts(lock, "{sub}.a.com"), mux.NewPathVersion("v", "v1")), mux.WithLock(lock))
+		r1.Handle("/u/{id}", hv.Route("hU1"), nil, "GET")
+		r2 := g.New("g2", mux.OrMatcher(mux.AndMatcher(mux.NewHosts(lock, "{sub}.b.com"), mux.NewHeaderVersion("hv", "", func(error) {}, "1")), mux.NewPathVersion("v", "v2")), mux.WithLock(lock))
+		r2.Handle("/u/{id}", hv.Route("hU2"), nil, "GET")
+		return g
+	}
+	return quiescentRouter(lock, shape)
+}
+
 func quiescentRouter(lock bool, shape int) *Router {
 	r := NewRouter(RouterCfg{Lock: lock})
 	r.Handle("/u/{id}", hv.Route("hU"), nil, "GET")
@@ -327,7 +384,7 @@ func c07cJob(raw json.RawMessage) (any, error) {
 	}
 	name := fmt.Sprintf("shape=%d lock=%v: %s", it.Shape, it.Lock, strings.Join(names, " || "))
 	// expected: each request alone on an identical router
-	soloR := quiescentRouter(it.Lock, it.Shape)
+	soloR := quiescentServer(it.Lock, it.Shape)
 	want := make([][]string, n)
 	for t, qs := range it.Threads {
 		for _, q := range qs {
@@ -337,7 +394,7 @@ func c07cJob(raw json.RawMessage) (any, error) {
 	run := func(s *explore.Sched) explore.ExecResult {
 		var raceViols []explore.Violation
 		res0 := func() explore.ExecResult {
-			r := quiescentRouter(it.Lock, it.Shape)
+			r := quiescentServer(it.Lock, it.Shape)
 			types.VerifDrainPool()
 			obs := make([][]*hv.Obs, n)
 			bodies := make([]func(), n)
@@ -460,10 +517,19 @@ func freshVector() []string {
 		r.Handle("/posts/author", hv.Route("h4"), nil)
 		v = append(v, fmt.Sprintf("trace=%v +4 routes: %s", trace, strings.Join(c17Vector(r, []string{"/posts", "/p/zz", "/posts/abc", "/posts/author"}), " ## ")))
 	}
-	h := mux.NewHosts(false, "a.com")
+	h := mux.NewHosts(false, "a.com", "{s:rule}.c.com") // no interceptor registered on THIS instance: "rule" is a regexp
 	ctx := types.NewContext()
-	v = append(v, fmt.Sprintf("hosts: %v %v", h.Match(hv.NewRequest(hv.Req{Host: "a.com"}, &hv.Obs{}), ctx), h.Match(hv.NewRequest(hv.Req{Host: "b.com"}, &hv.Obs{}), ctx)))
+	v = append(v, fmt.Sprintf("hosts: %v %v rule-as-regexp: %v %v", h.Match(hv.NewRequest(hv.Req{Host: "a.com"}, &hv.Obs{}), ctx), h.Match(hv.NewRequest(hv.Req{Host: "b.com"}, &hv.Obs{}), ctx),
+		h.Match(hv.NewRequest(hv.Req{Host: "rule.c.com"}, &hv.Obs{}), ctx), h.Match(hv.NewRequest(hv.Req{Host: "xy.c.com"}, &hv.Obs{}), ctx)))
 	ctx.Destroy()
+	ri := NewRouter(RouterCfg{})
+	ri.Handle("/i/{x:rule}", hv.Route("hI"), nil, "GET")
+	v = append(v, "router rule-as-regexp: "+hv.Serve(ri, hv.Req{Method: "GET", Path: "/i/rule"}).Summary()+" ## "+hv.Serve(ri, hv.Req{Method: "GET", Path: "/i/12"}).Summary())
+	rs := NewRouter(RouterCfg{}, sharedOptions...)
+	rs.Handle("/a", hv.Route("hA"), nil, "GET")
+	oc := hv.Serve(rs, hv.Req{Method: "GET", Path: "/a", Header: map[string]string{"Origin": "https://b"}})
+	u, _ := rs.URL(false, "/a", nil)
+	v = append(v, fmt.Sprintf("shared options: acao=%q cred=%q url=%q", oc.Header.Get("Access-Control-Allow-Origin"), oc.Header.Get("Access-Control-Allow-Credentials"), u))
 	g := newGroup()
 	v = append(v, "group: "+hv.Serve(g, hv.Req{Method: "GET", Path: "/x"}).Summary())
 	return v
@@ -500,6 +566,11 @@ func c07bJob(raw json.RawMessage) (any, error) {
 	}
 	hs := mux.NewHosts(false, "x.com", "{s}.y.com")
 	hs.Delete("x.com")
+	hs.RegisterInterceptor(func(s string) bool { return len(s) == 2 }, "rule")
+	hs.Add("{s:rule}.w.com")
+	r3 := NewRouter(RouterCfg{Name: "other-icpt"}, append([]mux.Option{mux.WithDigitInterceptor("rule")}, sharedOptions...)...)
+	r3.Handle("/i/{x:rule}", hv.Route("hI"), nil, "GET")
+	hv.Serve(r3, hv.Req{Method: "GET", Path: "/i/12"})
 	for _, p := range []string{"/posts", "/posts/author", "/p/zz"} {
 		hv.Serve(r1, hv.Req{Method: "OPTIONS", Path: p})
 		hv.Serve(r2, hv.Req{Method: "BOGUS", Path: p})
@@ -591,6 +662,15 @@ func init() {
 			}
 			for _, tr := range [][]hv.Req{{reqs[0], reqs[1], reqs[2]}, {reqs[0], reqs[1], reqs[3]}, {reqs[1], reqs[5], reqs[4]}, {reqs[0], reqs[0], reqs[1]}} {
 				citems = append(citems, c07cItem{Lock: lock, Threads: [][]hv.Req{{tr[0]}, {tr[1]}, {tr[2]}}, Bound: bc - 1})
+			}
+			// shape 2: a quiescent Group behind And/Or matchers
+			acc := map[string]string{"Accept": "application/json;version=1"}
+			gq := []hv.Req{{Method: "GET", Path: "/v1/u/1", Host: "s1.a.com"}, {Method: "GET", Path: "/v1/u/2", Host: "s2.a.com"}, {Method: "GET", Path: "/v2/u/3", Host: "s3.b.com"},
+				{Method: "GET", Path: "/u/4", Host: "s4.b.com", Header: acc}, {Method: "GET", Path: "/v2/u/5", Host: "s5.a.com"}, {Method: "GET", Path: "/u/6", Host: "zz.com"}}
+			for i, a := range gq {
+				for _, b := range gq[i:] {
+					citems = append(citems, c07cItem{Shape: 2, Lock: lock, Threads: [][]hv.Req{{a}, {b}}, Bound: bc - 1})
+				}
 			}
 			// shape 1: requests through the nodes whose children were removed / re-indexed
 			r1 := []hv.Req{{Method: "GET", Path: "/x/b"}, {Method: "GET", Path: "/x/9"}, {Method: "GET", Path: "/u/1/c"}, {Method: "GET", Path: "/u/2/b"}, {Method: "GET", Path: "/s"}, {Method: "GET", Path: "/x/a"}}
